@@ -641,6 +641,73 @@ def Decoder_Skip.body (fuel : Nat) : Decoder_Skip.St → Go.Out Decoder_Skip.St 
 def Decoder_Skip (fuel : Nat) (d_p : Bytes) (d_offset : BitVec 64) (d_mode : BitVec 64) (d_keyStart : BitVec 64) (d_keyEnd : BitVec 64) (tag : BitVec 64) (wt : BitVec 64) : Go.Out Decoder_Skip.St Decoder_Skip.R :=
   Decoder_Skip.body fuel { d_p := d_p, d_offset := d_offset, d_mode := d_mode, d_keyStart := d_keyStart, d_keyEnd := d_keyEnd, tag := tag, wt := wt }
 
+/-! ### `Decoder.DecodeBool` (/repo/decoder.go:151:1) -/
+
+structure Decoder_DecodeBool.St where
+  d_p : Bytes
+  d_offset : BitVec 64
+  d_mode : BitVec 64
+  d_keyStart : BitVec 64
+  d_keyEnd : BitVec 64
+  b : Bool := false
+  err : Go.Err := Go.Err.nil
+  v : BitVec 64 := 0#64
+  n : BitVec 64 := 0#64
+
+abbrev Decoder_DecodeBool.R := Bool × Go.Err
+
+/-- the body of `Decoder_DecodeBool`, statement by statement -/
+def Decoder_DecodeBool.body (fuel : Nat) : Decoder_DecodeBool.St → Go.Out Decoder_DecodeBool.St Decoder_DecodeBool.R :=
+  (Go.seq (Go.seq (fun s => if (BitVec.sle (BitVec.ofNat 64 s.d_p.length) s.d_offset) then (fun s => .ret (false, Go.Err.unexpectedEOF) s) s else Go.skip s)
+    (Go.seq (fun s => if ((s.d_offset).toNat ≤ s.d_p.length) then match (DecodeVarint fuel (s.d_p.drop (s.d_offset).toNat)) with | .ret r c => .next { s with v := r.1, n := r.2.1, err := r.2.2 } | .next _ => .panic | .panic => .panic | .diverge => .diverge else .panic)
+    (Go.seq (fun s => if (s.err != Go.Err.nil) then (fun s => .ret (false, s.err) s) s else Go.skip s)
+    (Go.seq (fun s => if (s.n == 0#64) then (fun s => .ret (false, Go.Err.invalidVarint) s) s else Go.skip s)
+    (Go.seq (fun s => .next { s with d_offset := (s.d_offset + s.n) })
+    (fun s => .ret ((s.v != 0#64), Go.Err.nil) s))))))
+    Go.missingReturn)
+
+def Decoder_DecodeBool (fuel : Nat) (d_p : Bytes) (d_offset : BitVec 64) (d_mode : BitVec 64) (d_keyStart : BitVec 64) (d_keyEnd : BitVec 64) : Go.Out Decoder_DecodeBool.St Decoder_DecodeBool.R :=
+  Decoder_DecodeBool.body fuel { d_p := d_p, d_offset := d_offset, d_mode := d_mode, d_keyStart := d_keyStart, d_keyEnd := d_keyEnd }
+
+/-! ### `Decoder.More` (/repo/decoder.go:120:1) -/
+
+structure Decoder_More.St where
+  d_p : Bytes
+  d_offset : BitVec 64
+  d_mode : BitVec 64
+  d_keyStart : BitVec 64
+  d_keyEnd : BitVec 64
+
+abbrev Decoder_More.R := Bool
+
+/-- the body of `Decoder_More`, statement by statement -/
+def Decoder_More.body (fuel : Nat) : Decoder_More.St → Go.Out Decoder_More.St Decoder_More.R :=
+  (Go.seq (fun s => .ret ((BitVec.slt s.d_offset (BitVec.ofNat 64 s.d_p.length))) s)
+    Go.missingReturn)
+
+def Decoder_More (fuel : Nat) (d_p : Bytes) (d_offset : BitVec 64) (d_mode : BitVec 64) (d_keyStart : BitVec 64) (d_keyEnd : BitVec 64) : Go.Out Decoder_More.St Decoder_More.R :=
+  Decoder_More.body fuel { d_p := d_p, d_offset := d_offset, d_mode := d_mode, d_keyStart := d_keyStart, d_keyEnd := d_keyEnd }
+
+/-! ### `Encoder.EncodeBool` (/repo/encoder.go:25:1) -/
+
+structure Encoder_EncodeBool.St where
+  e_p : Bytes
+  e_offset : BitVec 64
+  tag : BitVec 64
+  v : Bool
+
+abbrev Encoder_EncodeBool.R := Unit
+
+/-- the body of `Encoder_EncodeBool`, statement by statement -/
+def Encoder_EncodeBool.body (fuel : Nat) : Encoder_EncodeBool.St → Go.Out Encoder_EncodeBool.St Encoder_EncodeBool.R :=
+  (Go.seq (Go.seq (fun s => if ((s.e_offset).toNat ≤ s.e_p.length) then match (EncodeTag fuel (s.e_p.drop (s.e_offset).toNat) s.tag 0#64) with | .ret r c => .next { s with e_p := s.e_p.take (s.e_offset).toNat ++ c.dest, e_offset := (s.e_offset + r) } | .next _ => .panic | .panic => .panic | .diverge => .diverge else .panic)
+    (Go.seq (fun s => if s.v then (fun s => if ((s.e_offset).toNat < s.e_p.length) then .next { s with e_p := Go.wr s.e_p (s.e_offset).toNat 1#8 } else .panic) s else (fun s => if ((s.e_offset).toNat < s.e_p.length) then .next { s with e_p := Go.wr s.e_p (s.e_offset).toNat 0#8 } else .panic) s)
+    (fun s => .next { s with e_offset := (s.e_offset + 1#64) })))
+    (fun s => .ret () s))
+
+def Encoder_EncodeBool (fuel : Nat) (e_p : Bytes) (e_offset : BitVec 64) (tag : BitVec 64) (v : Bool) : Go.Out Encoder_EncodeBool.St Encoder_EncodeBool.R :=
+  Encoder_EncodeBool.body fuel { e_p := e_p, e_offset := e_offset, tag := tag, v := v }
+
 /-! ### `Encoder.EncodeUInt64` (/repo/encoder.go:56:1) -/
 
 structure Encoder_EncodeUInt64.St where
